@@ -144,7 +144,7 @@ def check_decode(config, codec, hexbm, msg, bit, proc, blocked):
     want = refcodec.mask_pan(pan) if proc == 'PAN' else pan[:9]
     results = []
     try:
-        results.append(('loads', iso8583.loads(data, encoding=codec, iso_config=config, hex_bitmap=hexbm)))
+        results.append(('loads', iso8583.loads(data, encoding=codec, iso_config=gen_iso.same_object(config, len(data)), hex_bitmap=hexbm)))
     except Exception as ex:
         return exc_sig('loads-raises', ex), f'loads raised {ex!r} on a well-formed message with a {len(pan)}-digit PAN on DE{bit}'
     if not hexbm:
